@@ -5,8 +5,12 @@
    str::parse::<i32>, RangeFrom<u32>::next) and packer (read_string = split_nul,
    read_int = Varint.read_int).  Definitions only; proofs are in
    Proofs/ServerBrowse*.v.  `Err tt` is the `None` of the Rust code. *)
-From LibTw2 Require Export Base.Res Model.Varint Model.Packer.
+From LibTw2 Require Export Base.Res Model.Varint Model.Packer Gen.ServerBrowseConsts.
 Open Scope Z_scope.
+
+(* The response headers, TOKEN_7, IPV4_MAPPING, the MAX_CLIENTS constants, PACKETFLAG_CONNLESS, the
+   ArrayString capacities CAP_x_y and the max_clients table MAXC_v come from Gen/ServerBrowseConsts.v, which
+   tools/gen_serverbrowse.py regenerates from serverbrowse/src/protocol.rs on every run. *)
 
 (* ---------- panic sites ---------- *)
 Definition site_slice : Z := 1801.       (* &data[a..b] / data[i] out of range *)
@@ -35,7 +39,9 @@ Inductive rsiv := RNormal (v : siv) | RV6ExMore.            (* ReceivedServerInf
 Definition rsiv_version (rv : rsiv) : siv := match rv with RNormal v => v | RV6ExMore => V6Ex end.
 
 Definition max_clients_of (v : siv) : option Z :=
-  match v with V5 | V6 | V6Ddper => Some 16 | V664 => Some 64 | V6Ex => None | V7 => Some 64 end.
+  match v with
+  | V5 => MAXC_V5 | V6 => MAXC_V6 | V6Ddper => MAXC_V6Ddper | V664 => MAXC_V664 | V6Ex => MAXC_V6Ex | V7 => MAXC_V7
+  end.
 Definition has_hostname (v : siv) : bool := match v with V7 => true | _ => false end.
 Definition has_progression (v : siv) : bool := match v with V5 => true | _ => false end.
 Definition has_skill_level (v : siv) : bool := match v with V7 => true | _ => false end.
@@ -200,11 +206,11 @@ Definition shl1_u64 (site : Z) (n : Z) : res unit Z :=
 (* the `else` branch of `if !received_version.is_normal()`: everything up to the offset *)
 Definition parse_header (version : siv) (ri : int_reader) (token : Z) (r : bytes)
   : res unit (sinfo * Z * bytes) :=
-  let* (ver, r) := str_field 32 r in
-  let* (name, r) := str_field 64 r in
+  let* (ver, r) := str_field CAP_info_version r in
+  let* (name, r) := str_field CAP_info_name r in
   let* (hostname, r) :=
-    if has_hostname version then let* (h, r) := str_field 64 r in Ok (Some h, r) else Ok (None, r) in
-  let* (map, r) := str_field 32 r in
+    if has_hostname version then let* (h, r) := str_field CAP_info_hostname r in Ok (Some h, r) else Ok (None, r) in
+  let* (map, r) := str_field CAP_info_map r in
   let* (crc, size, r) :=
     if has_extended_map_info version then
       let* (crc, r) := read_int_with ri r in
@@ -213,7 +219,7 @@ Definition parse_header (version : siv) (ri : int_reader) (token : Z) (r : bytes
       if u32_max <? size then Panic site_assert_u32 else
       Ok (Some (u32_of crc), Some size, r)
     else Ok (None, None, r) in
-  let* (game_type, r) := str_field 32 r in
+  let* (game_type, r) := str_field CAP_info_game_type r in
   let* (flags, r) := read_int_with ri r in
   let* (progression, r) :=
     if has_progression version then let* (p, r) := read_int_with ri r in Ok (Some p, r) else Ok (None, r) in
@@ -253,10 +259,10 @@ Fixpoint clients_loop (fuel : nat) (version : siv) (ri : int_reader) (j : Z) (re
     match read_str rest with
     | None => Ok ([], 0)                                       (* break *)
     | Some (n, r) =>
-      let* name := truncated_arraystring 15 n in
+      let* name := truncated_arraystring CAP_client_name n in
       let* (clan, country, r) :=
         if has_extended_player_info version then
-          let* (clan, r) := str_field 11 r in
+          let* (clan, r) := str_field CAP_client_clan r in
           let* (country, r) := read_int_with ri r in Ok (clan, country, r)
         else Ok ([], -1, r) in
       let* (score, r) := read_int_with ri r in
@@ -269,7 +275,7 @@ Fixpoint clients_loop (fuel : nat) (version : siv) (ri : int_reader) (j : Z) (re
       let* r := skip_extra version r in
       let c := {| c_name := name; c_clan := clan; c_country := country; c_score := score; c_flags := flags |} in
       if siv_eqb version V664 then
-        if 64 <=? j then clients_loop fuel' version ri (j + 1) r     (* continue: the client is dropped *)
+        if MAX_CLIENTS_6_64 <=? j then clients_loop fuel' version ri (j + 1) r   (* continue: the client is dropped *)
         else
           let* bit := shl1_u64 site_shl_offset j in
           let* (cs, rv) := clients_loop fuel' version ri (j + 1) r in
@@ -418,23 +424,6 @@ Fixpoint bytes_eqb (a b : bytes) : bool :=
   end.
 
 Definition ff (n : nat) : bytes := repeat 255 n.
-Definition header14 (tail : bytes) : bytes := ff 10 ++ tail.
-Definition header17 (tail : bytes) : bytes := 33 :: ff 12 ++ tail.
-
-Definition LIST_5 := header14 [108; 105; 115; 116].            (* "list" *)
-Definition LIST_6 := header14 [108; 105; 115; 50].             (* "lis2" *)
-Definition COUNT := header14 [115; 105; 122; 50].              (* "siz2" *)
-Definition INFO_5 := header14 [105; 110; 102; 50].             (* "inf2" *)
-Definition INFO_6 := header14 [105; 110; 102; 51].             (* "inf3" *)
-Definition INFO_6_DDPER : bytes := [100; 112; 0; 0; 0; 0; 255; 255; 255; 255; 105; 110; 102; 51].  (* "dp\0\0\0\0" ff*4 "inf3" *)
-Definition INFO_6_64 := header14 [100; 116; 115; 102].         (* "dtsf" *)
-Definition INFO_6_EX := header14 [105; 101; 120; 116].         (* "iext" *)
-Definition INFO_6_EX_MORE := header14 [105; 101; 120; 43].     (* "iex+" *)
-Definition TOKEN_7 : bytes := [4; 0; 0; 255; 255; 255; 255; 5].
-Definition LIST_7 := header17 [108; 105; 115; 50].
-Definition COUNT_7 := header17 [115; 105; 122; 50].
-Definition INFO_7 := header17 [105; 110; 102; 51].
-Definition IPV4_MAPPING : bytes := [0; 0; 0; 0; 0; 0; 0; 0; 0; 0; 255; 255].
 
 (* &data[n..] and &data[..n] with the bounds check *)
 Definition slice_from (n : nat) (bs : bytes) : res unit bytes :=
@@ -519,7 +508,7 @@ Definition parse_response_6 (data : bytes) : res unit response :=
   match data with
   | [] => Panic site_slice                                      (* data[0] *)
   | b0 :: _ =>
-    if Z.land b0 64 =? 0 then Err tt else                       (* PACKETFLAG_CONNLESS *)
+    if Z.land b0 PACKETFLAG_CONNLESS =? 0 then Err tt else
     let* header := slice_to 14 data in
     let* payload := slice_from 14 data in
     let header' :=
